@@ -222,6 +222,13 @@ try:
                         run_case("lattice-" + rule, n, incs, exps, zsk, kw, now, shuffle=R.random() < 0.3,
                                  desc={"rule": rule, "pos": pos, "delta_s": delta.total_seconds(), "minmax_equal": eq})
 
+    # A1. a single bundle spans zero: it passes the cycle rule only if zero is inside the operator's bounds
+    for lo, hi in ((D(days=79), D(days=81)), (D(0), D(days=81)), (D(seconds=1), D(days=1)), (D(0), D(0)), (-D(days=1), D(days=1))):
+        for flag in (True, False):
+            incs, exps = baseline(1, validity=D(days=19))
+            kw = pol_for(1, None, False, check_cycle_length=flag, min_cycle_inception_length=lo, max_cycle_inception_length=hi)
+            run_case("one-bundle-cycle", 1, incs, exps, zsk_for(False), kw, NOW, desc={"min_cycle": str(lo), "max_cycle": str(hi), "check_cycle_length": flag})
+
     # A2. the same bounds with timestamps written without an offset (the form of the archived KSRs) and with the process in some other time zone
     for tz, suffix in ((None, ""), ("VRF+05", ""), ("VRF-05:30", ""), ("VRF+05", "+00:00"), ("VRF-11", "")):
         with process_zone(tz, suffix):
